@@ -2,9 +2,39 @@
 
 HARNESSES = {
     "numeric_pbt": dict(sources=["numeric_pbt.cpp"], variant="san"),
+    "codec_pbt": dict(sources=["codec_pbt.cpp"], variant="san"),
 }
 
+_CODEC_ESS_KINDS = ["kind=v2.track_data", "kind=v2.beat_data", "kind=v2.quick_cues", "kind=v2.loops", "kind=v2.overview_waveform",
+                    "kind=v1.track_data", "kind=v1.beat_data", "kind=v1.high_res_waveform", "kind=v1.overview_waveform",
+                    "kind=v1.quick_cues", "kind=v1.loops"]
+
 CHECKS = {
+    "C02": dict(level="exploration", parts=[
+        dict(prop="C02.enc", harness="codec_pbt", quick=dict(count=24000, workers=8), thorough=dict(count=2400000, workers=16),
+             essential=_CODEC_ESS_KINDS + ["label=255", "payload>16KiB"]),
+        dict(prop="C02.dec", harness="codec_pbt", quick=dict(count=24000, workers=8), thorough=dict(count=2400000, workers=16),
+             essential=_CODEC_ESS_KINDS + ["label=255", "zlib-stored", "foreign:flag", "foreign:zero-tail"]),
+    ]),
+    "C03": dict(level="exploration", parts=[
+        dict(prop="C03", harness="codec_pbt", quick=dict(count=40000, workers=8), thorough=dict(count=3300000, workers=16),
+             essential=_CODEC_ESS_KINDS + ["label=255", "label=256", "label=300", "entries=8", "entries=9", "entries=12", "double:nan",
+                                           "grid:1-marker", "grid:unsorted", "grid:>32768", "extra-data", "encode-rejected"]),
+        dict(prop="C03.reg", harness="codec_pbt", quick=dict(count=0, workers=1), thorough=dict(count=0, workers=1)),  # regression scenarios only
+    ]),
+    "C04": dict(level="exploration", parts=[
+        dict(prop="C04", harness="codec_pbt", quick=dict(count=20000, workers=8), thorough=dict(count=1500000, workers=16),
+             essential=["kind=v2.track_data", "kind=v2.beat_data", "kind=v2.quick_cues", "kind=v2.loops", "kind=v2.overview_waveform",
+                        "count!=8", "flag>1", "v2.track_data:tail", "v2.overview_waveform:tail", "v2.beat_data:tail", "v2.loops:tail",
+                        "v2.quick_cues:tail"]),
+        dict(prop="C04.fuzz", kind="fuzz", targets=[0, 1, 2, 3, 4], quick_runs=150000, thorough_runs=6000000),
+    ]),
+    "C05": dict(level="exploration", parts=[
+        dict(prop="C05", harness="codec_pbt", quick=dict(count=60000, workers=8), thorough=dict(count=6000000, workers=16),
+             essential=_CODEC_ESS_KINDS + ["mut:count", "frame:prefix", "frame:truncated-stream", "frame:short-raw", "frame:corrupt-stream",
+                                           "zlib:returned", "zlib:rejected"]),
+        dict(prop="C05.fuzz", kind="fuzz", targets=list(range(12)), quick_runs=200000, thorough_runs=8000000),
+    ]),
     "C19": dict(level="exploration", parts=[
         dict(prop="C19", harness="numeric_pbt",
              quick=dict(count=400000, workers=8), thorough=dict(count=48000000, workers=16),
@@ -17,6 +47,34 @@ CHECKS = {
 }
 
 RULES = {
+    "C02": "Two generated campaigns over all 11 blob kinds. enc: a logical value (finite doubles, labels 0..255 bytes of arbitrary content, "
+           "0..20 cue/loop entries, grids/waveforms of 0..60 entries plus 1024 and large sizes) is encoded by the library and decoded by "
+           "refcodec (independent table-driven layout reader, one-shot zlib, verifies the length prefix and that the stream ends at the end "
+           "of the blob); the tokens must equal the harness's own value->layout mapping. dec: the same values are encoded by refcodec "
+           "(zlib level -1..9, 1.x blobs additionally with foreign flag bytes, unknown fields, zero tails, arbitrary max entries) and "
+           "decoded by the library; the result must equal the value bit for bit. Non-trivial = value has >=1 repeated entry or the blob "
+           "exceeds 40 bytes; distinct = distinct canonical renderings of (value, level, blob prefix).",
+    "C03": "Each case = one of the 11 blob kinds and a value drawn from the whole struct domain: doubles by bit-pattern class (0, -0, -1 "
+           "sentinel, denormal, NaN payloads, +-inf, arbitrary bits), integer edges, labels of 0/1/short/254/255/256/300 arbitrary bytes, "
+           "0..12 cue/loop entries, 1.x grids empty/2/many/1-marker/unsorted/>32768/extreme indices, waveforms 0..60/1024/large, extra_data "
+           "0..64 bytes. Oracle: encode throws std::exception, or decode(encode(v)) is bit-identical to v (own renderer, NaN by bits) up to "
+           "the one permitted loss (1.x cue/loop with offset -1 reads back absent). 1.x zero-means-none fields (sample rate/count, loudness, "
+           "key 0 in the trackData blob) are generated absent instead of present-zero. Non-trivial = value has >=1 entry or non-empty "
+           "extra_data and was accepted by the encoder; distinct = distinct canonical renderings.",
+    "C04": "pbt part: a generated 2.x value (0..20 entries, arbitrary flag bytes 0..255 for is_start_set/is_end_set/is_beatgrid_set and the "
+           "main-cue boolean, 0..64 trailing bytes) is encoded by refcodec at zlib level -1..9 and given to from_blob; if accepted, the "
+           "inflated payload of to_blob(from_blob(b)) must equal the original payload byte for byte (main-cue boolean normalised to 1, located "
+           "through the layout table). fuzz part: libFuzzer on the five 2.x decoders with the same oracle inside the target (raw bytes or "
+           "bytes framed by the target). Non-trivial = blob has a tail, a count != 8, a flag > 1, or is beat data; distinct = distinct payloads "
+           "(pbt) + coverage-increasing corpus units beyond the seeds (fuzz).",
+    "C05": "pbt part: a valid payload of one of the 11 kinds (from the value generators + refcodec) gets 1-2 structured mutations "
+           "(truncation anywhere / near the end, a count field overwritten with 0, -1, INT64_MIN, fit+-1, 2^31, 2^59, 2^61, 2^63-1..., byte "
+           "set/flip, appended bytes, tiny arbitrary payloads, minimum-size payloads with non-zero counts), then a framing (well-formed at any "
+           "zlib level, wrong length prefix, deflate stream cut anywhere / near the end / inside a stored block, bytes after the stream, raw "
+           "0..8 bytes, bit flip inside the stream); the decoder and zlib_uncompress must return or throw std::exception under ASan+UBSan+"
+           "_GLIBCXX_ASSERTIONS and a 30 s watchdog; when the frame is well-formed zlib_uncompress must agree with one-shot inflate. fuzz part: "
+           "libFuzzer (ASan+UBSan, -timeout=20) on 11 decoders + zlib_uncompress, seeds = generator-made valid blobs. Every input is "
+           "non-trivial in the sense that it reaches a decoder; distinct = distinct byte strings (pbt) + coverage-increasing corpus units (fuzz).",
     "C19": "Each case = (sample_count, sample_rate) decoded from rapidcheck-generated choices: boundary tables (0, 1, 209..211, "
            "419..421, 2^31, 2^53+-1, 2^62, k*q+{-1,0,1,q-1}) mixed with uniform draws over [0,2^62] x [0,2^31]; the compiled "
            "functions are compared with an exact unsigned-128-bit integer reference and with the metamorphic relations n->n+1, "
@@ -29,6 +87,13 @@ RULES = {
 }
 
 ASSUMPTIONS = {
+    "C02": ["'The Engine format' is the layout documented at the pinned commit and frozen in harness/refcodec (DESIGN appendix B); no "
+            "Engine-written blob exists offline", "zlib's one-shot uncompress2/compress2 are correct"],
+    "C03": ["1.x fields whose zero value means 'none' in the format (sample rate/count, loudness, trackData key) are outside the value domain",
+            "the 1.x overview waveform has no opacity bytes: opacity is not part of that codec's domain"],
+    "C04": ["payload = what zlib one-shot inflate yields for the single well-formed frame (identity for loops)"],
+    "C05": ["allocations above 256 MiB (pbt) / 64 MiB (fuzz targets, inputs <= 6000 bytes) are turned into std::bad_alloc by the harness's operator new (ASan's cannot throw)",
+            "hangs are judged by a 30 s (pbt) / 20 s (libFuzzer) watchdog, confirmed by 3 replays"],
     "C19": ["IEEE-754 binary64 arithmetic with round-to-nearest in the harness", "sample rates are finite and within [0, 2^31] as the property states"],
     "C20": ["grids are strictly increasing in offset and index (property domain)",
             "tempo is restricted so that every normalised index fits in a 32-bit int with margin (|index| < 2^30); "
@@ -38,11 +103,36 @@ ASSUMPTIONS = {
 # ---------------------------------------------------------------------------------------------------------
 # Text for MANIFEST.json (driver/gen_manifest.py regenerates the file from this module).
 ENGINES = [
+    dict(name="codec_pbt", path="harness/codec_pbt.cpp", serves_properties=["C02", "C03", "C04", "C05"],
+         kind_free_text="rapidcheck-driven value/byte generators vs refcodec (independent layout implementation), round-trip and byte-preservation oracles, ASan+UBSan"),
+    dict(name="codec_fuzz", path="harness/codec_fuzz.cpp", serves_properties=["C04", "C05"],
+         kind_free_text="12 libFuzzer targets (clang, ASan+UBSan) with the C03/C04/C05 oracles inside the target"),
     dict(name="numeric_pbt", path="harness/numeric_pbt.cpp", serves_properties=["C19", "C20"],
          kind_free_text="rapidcheck-driven generated inputs vs exact-integer reference and validity predicates"),
 ]
 
 MANIFEST_TEXT = {
+    "C02": dict(engine="codec_pbt", design_ref="DESIGN.md 6/C02, appendix B",
+                technique="property-based differential testing: library codecs vs an independent table-driven codec (refcodec), both directions",
+                text="Generated values of all 11 blob kinds are encoded by the library and decoded by an independent implementation of the "
+                     "documented layout (and vice versa, at every zlib level, with foreign flags/tails); any drift of field order, width, "
+                     "endianness or framing on either side shows as a token mismatch.",
+                note="Trusts refcodec's layout tables (frozen from the documented format), zlib one-shot API."),
+    "C03": dict(engine="codec_pbt", design_ref="DESIGN.md 6/C03",
+                technique="property-based round-trip testing over the whole struct domain (bit-exact comparison, reject-or-survive)",
+                text="Generated values over the whole struct domain (every double class, over-long labels, 0..12 slots, malformed grids, "
+                     "extra data): encode either throws or decodes back bit-identically; heap errors are visible through ASan.",
+                note="Trusts the harness's canonical renderer; 1.x zero-means-none fields excluded from the domain as documented."),
+    "C04": dict(engine="codec_pbt + codec_fuzz", design_ref="DESIGN.md 6/C04",
+                technique="property-based metamorphic testing (decode/re-encode byte preservation) + coverage-guided fuzzing with the oracle in the target",
+                text="Foreign 2.x blobs built by refcodec (arbitrary counts, flags, tails, zlib levels) and libFuzzer mutations of them: "
+                     "whenever from_blob accepts, to_blob must reproduce the payload byte for byte.",
+                note="Setter-level byte preservation on stored tracks is covered by the api-level part once that harness lands."),
+    "C05": dict(engine="codec_pbt + codec_fuzz", design_ref="DESIGN.md 6/C05",
+                technique="coverage-guided fuzzing (libFuzzer, ASan+UBSan) + structured near-miss generation with sanitizers and a watchdog",
+                text="Arbitrary and structured-corrupt byte strings into all 11 decoders and zlib_uncompress: return or std::exception, no "
+                     "sanitizer report, no assertion, no hang.",
+                note="A bound on run time (watchdog), not a termination proof; allocations >256 MiB (64 MiB in fuzz targets) become bad_alloc."),
     "C19": dict(engine="numeric_pbt", design_ref="DESIGN.md 6/C19",
                 technique="property-based testing: generated (count, rate) pairs vs exact 128-bit integer reference + metamorphic monotonicity",
                 text="Generated-input search (boundary tables + uniform draws over the stated domain) comparing the compiled functions "
@@ -56,4 +146,4 @@ MANIFEST_TEXT = {
 }
 
 _WIP = "check under construction in this session (harness not yet committed); will be claimed once it runs green and has been sensitivity-tested"
-NOT_APPLICABLE = {p: _WIP for p in ["C%02d" % i for i in range(1, 19)]}
+NOT_APPLICABLE = {p: _WIP for p in ["C%02d" % i for i in range(1, 19)] if p not in CHECKS}
